@@ -9,8 +9,10 @@
    polygons of any size up to the same modelled step as C04 (a simple polygon's integral = signed sum over its fan).
    The same on ANY plane (C12_polygon_any_plane_is_fan_of_fourier_integrals): unit normal n, wave vector projected into the plane as the
    method does.
-   NOT proved: the degenerate directions (q perpendicular to an edge or to a chord: limits of the generic case); those are decided by
-   correspondence with direct quadrature of the defining integral.
+   ... and for EVERY wave vector whose projection into the plane is not zero, the directions perpendicular to an edge or to a fan chord
+   included (C12_polygon_any_plane_all_directions; the fan triangles must be non-degenerate).
+   NOT proved: polyhedra for wave vectors that are not generic for the cones (limits of the generic case); fans with collinear triples;
+   those are decided by correspondence with direct quadrature of the defining integral.
    POLYHEDRA (C12_polyhedron_is_sum_of_cone_fourier_integrals): for every closed, oriented, triangulated surface with unit face normals
    (any plane, any size) the face sum of Polyhedron.compute_form_factor_amplitude equals the sum of the Fourier integrals of the signed
    cone tetrahedra (o, a, b, c), for every apex o and every q generic for the cones; polygonal faces are the sums of their fan
@@ -222,3 +224,14 @@ Example C12_any_plane_hypotheses_hold :
   let n : vec3 R := (/ 3, 2 / 3, 2 / 3) in
   vdot Rops n n = 1 /\ generic_fan3 n (1, 3, 5) (3, 0, 0) (1, 1, 0) ((1, 0, 1) :: (3, -1, 1) :: nil).
 Proof. exact generic_fan3_example. Qed.
+
+
+(* ... and every direction: for a polygon of any size on any plane whose fan triangles are non-degenerate, and EVERY wave vector whose
+   projection into the plane is not zero (also perpendicular to an edge or to a fan chord, where the code's sinc factor takes its value at 0),
+   the edge sum is the fan of Fourier integrals *)
+Theorem C12_polygon_any_plane_all_directions :
+  forall (n q a b : vec3 R) (l : list (vec3 R)),
+    vdot Rops n n = 1 -> planar_fan3 n a b l -> vdot Rops (qpar n q) (qpar n q) <> 0 ->
+    polygon_ff n (qpar n q) (a :: b :: l) = fan3_fourier n q a b l.
+Proof. exact polygon_any_plane_all_directions. Qed.
+Print Assumptions C12_polygon_any_plane_all_directions.
